@@ -139,3 +139,150 @@ Print Assumptions C08_clear_amount.
 Print Assumptions C08_compact_exact_partial.
 Print Assumptions C08_legacy_exact_partial.
 Print Assumptions C08_decode_inverts_sender.
+
+(* ==== end-to-end compositions (Proofs/ScanEndToEnd.v) ============================================================ *)
+From MRS Require Import Proofs.ScanEndToEnd.
+
+(* the scalar the scanner derives from the published key and the position is the sender's shared scalar Hs(D || i), D = 8*(r*V_d):
+   the exactness theorems above (stated for a given shared scalar) apply to open_commitment on sender-built outputs *)
+Theorem C08_sender_shared_scalar_partial : forall (E : EdOps) (LW : EdLaws E) (Hs : hs_fun) (Hb : bytes -> bytes) v Sp maj min r i, valid Sp -> (i < 2 ^ 64)%N ->
+  let dst := wallet_address Hs v Sp maj min in
+  let snt := send Hs Hb r dst i in
+  shared_scalar Hs v (compress Sp) (compress (sn_key snt)) i = Ok (sn_shared snt).
+Proof. intros E LW Hs Hb. exact (sender_shared Hs Hb). Qed.
+
+(* END TO END.  If the scan succeeds on a transaction with a RingCT base of non-Null type whose output at position k was built by the
+   sender of Spec/Sender.v for in-range address (maj,min) of the wallet (v, Sp) (correct or absent tag; its key K is the first
+   TxPublicKey, or the additional key at position k while the main key matches no in-range index - the explicit no-other-match
+   hypothesis), and whose ecdh entry e and out_pk entry c0 at position k were produced by the sender from the SAME shared scalar
+   sh = Hs(D||k) for amount am < 2^64 and mask y (compact: e = am xor H("amount"||sh)[0..8], y = Hs("commitment_mask"||sh);
+   legacy: e = (y + Hs(sh), am + Hs(Hs(sh))), 0 <= y < l, hash-to-scalar values in [0,l)), c0 decoding to y*G + am*H, then the
+   result contains an owned output at position k with key K whose amount() is Some am, blinding_factor() Some y, commitment()
+   Some (y*G + am*H); its index has spend key S_(maj,min) and is (maj,min) if no other in-range index has that spend key *)
+Theorem C08_sender_amount_recovered_partial : forall (E : EdOps) (LW : EdLaws E) (Hs : hs_fun) (Hb : bytes -> bytes) v Sp a b c d p l fields main k o maj min r bs e c0 Hp am y,
+  valid Sp ->
+  prefix_check_outputs Hs Hb v (compress Sp) a b c d p (Some bs) = SOk l ->
+  raw_try_parse valid_pk_b (extra p) = Ok fields -> tx_pubkey fields = Some main ->
+  nth_error (outputs p) k = Some o -> (N.of_nat k < 2 ^ 64)%N ->
+  in_ranges a b c d (maj, min) ->
+  let dst := wallet_address Hs v Sp maj min in
+  let snt := send Hs Hb r dst (N.of_nat k) in
+  let K := compress (sn_key snt) in
+  let sh := sn_shared snt in
+  (o_target o = TKey (compress (sn_onetime snt)) \/ o_target o = TTagged (compress (sn_onetime snt)) (b2n (sn_tag snt))) ->
+  (K = main \/
+   (nth_error (adds_of fields) k = Some K /\
+    forall idx2, in_ranges a b c d idx2 -> ~ matches Hs Hb v (compress Sp) (N.of_nat k) o main idx2)) ->
+  rb_type bs <> RNull ->
+  nth_error (rb_ecdh bs) k = Some e -> nth_error (rb_out_pk bs) k = Some c0 ->
+  (am < 2 ^ 64)%N -> decompress Ed25519.H_bytes = Some Hp ->
+  ((e = EBulletproof (sender_compact Hb am sh) /\ y = gen_commitment_mask Hs sh) \/
+   (e = EStandard (fst (sender_legacy Hs am y sh)) (snd (sender_legacy Hs am y sh)) /\ 0 <= y < ell /\ (forall m, 0 <= Hs m < ell))) ->
+  decompress c0 = Some (pedersen Hp y am) ->
+  exists w, In w l /\ ow_pos w = N.of_nat k /\ ow_out w = o /\ ow_key w = K /\
+    ow_opening w = Some (am, y, pedersen Hp y am) /\
+    owned_amount w = Some am /\ owned_blinding_factor w = Some y /\ owned_commitment w = Some (pedersen Hp y am) /\
+    get_spend_public_key Hs v (compress Sp) (ow_index w) = Ok (compress (a_spend dst)) /\
+    ((forall idx2, in_ranges a b c d idx2 -> get_spend_public_key Hs v (compress Sp) idx2 = Ok (compress (a_spend dst)) ->
+        idx2 = (maj, min)) -> ow_index w = (maj, min)).
+Proof. intros E LW Hs Hb. exact (sender_amount_recovered Hs Hb). Qed.
+
+(* the stronger per-iteration form, WITHOUT assuming that the scan succeeds: on such an output, iteration k of the scan loop
+   (check_output, then opening_step on the entries at position k) reports key K and opens to the sender's values - the opening step
+   of a sender-built output is never the cause of an SErr or a panic (t = the wallet's table; the main key is K or is rejected) *)
+Theorem C08_sender_step_ok_partial : forall (E : EdOps) (LW : EdLaws E) (Hs : hs_fun) (Hb : bytes -> bytes) v Sp a b c d t maj min r i o main add am y bs e c0 Hp,
+  valid Sp -> checker_new Hs v (compress Sp) a b c d = Ok t -> in_ranges a b c d (maj, min) -> (i < 2 ^ 64)%N ->
+  let dst := wallet_address Hs v Sp maj min in
+  let snt := send Hs Hb r dst i in
+  let K := compress (sn_key snt) in
+  let sh := sn_shared snt in
+  (o_target o = TKey (compress (sn_onetime snt)) \/ o_target o = TTagged (compress (sn_onetime snt)) (b2n (sn_tag snt))) ->
+  (K = main \/ (add = Some K /\ check_key Hs Hb t v (compress Sp) i o main = Ok None)) ->
+  rb_type bs <> RNull ->
+  (am < 2 ^ 64)%N -> decompress Ed25519.H_bytes = Some Hp ->
+  ((e = EBulletproof (sender_compact Hb am sh) /\ y = gen_commitment_mask Hs sh) \/
+   (e = EStandard (fst (sender_legacy Hs am y sh)) (snd (sender_legacy Hs am y sh)) /\ 0 <= y < ell /\ (forall m, 0 <= Hs m < ell))) ->
+  decompress c0 = Some (pedersen Hp y am) ->
+  exists idx',
+    check_output Hs Hb t v (compress Sp) i o main add = Ok (Some (idx', K)) /\
+    get_spend_public_key Hs v (compress Sp) idx' = Ok (compress (a_spend dst)) /\
+    opening_step Hs Hb (Some bs) (Some e) (Some c0) v (compress Sp) i K = SOk (Some (am, y, pedersen Hp y am)).
+Proof. intros E LW Hs Hb. exact (sender_step_ok Hs Hb). Qed.
+
+(* non-vacuity: the lenient toy instance of EdLaws (Proofs/ScanEndToEnd.v toy2: Z/l, every 32-byte string decodes, so H_bytes is a
+   point) with the toy hashes; a RingCT (Clsag) transaction built with Spec/Sender.v - position 0: subaddress (0,1), additional
+   key, compact entry, amount 2^64-1; position 1: primary address, main key, view tag, legacy entry, amount 12345, mask l-1 -
+   scans to exactly the sender's amounts, masks and commitments *)
+Example C08_ex_toy2_laws : EdLaws toy2_ops.
+Proof. exact toy2_laws. Qed.
+Example C08_ex_toy_end_to_end :
+  t2_view t2_scan = Some [(0%N, (0%N, 1%N), t2_add0, Some t2_a0, Some t2_y0, Some t2_C0);
+                          (1%N, (0%N, 0%N), t2_main, Some t2_a1, Some t2_y1, Some t2_C1)].
+Proof. exact t2_scan_result. Qed.
+(* ... and every hypothesis of C08_sender_amount_recovered_partial holds there for both positions *)
+Example C08_ex_toy_hypotheses :
+  @valid toy2_ops t2_Sp /\ (exists l, t2_scan = SOk l) /\
+  @raw_try_parse (@valid_pk_b toy2_ops) (extra t2_prefix) = Ok t2_fields /\ tx_pubkey t2_fields = Some t2_main /\
+  @decompress toy2_ops Ed25519.H_bytes = Some t2_Hp /\ rb_type t2_base <> RNull /\
+  (nth_error (outputs t2_prefix) 0 = Some t2_o0 /\ nth_error (adds_of t2_fields) 0 = Some t2_add0 /\
+   (forall idx2, in_ranges 0 1 0 2 idx2 -> ~ @matches toy2_ops toyHs toyHb t2_v t2_Sb 0%N t2_o0 t2_main idx2) /\
+   nth_error (rb_ecdh t2_base) 0 = Some t2_e0 /\ sender_ecdh toyHs toyHb (sn_shared t2_s0) t2_a0 t2_y0 t2_e0 /\
+   (t2_a0 < 2 ^ 64)%N /\
+   exists c0, nth_error (rb_out_pk t2_base) 0 = Some c0 /\ @decompress toy2_ops c0 = Some t2_C0) /\
+  (nth_error (outputs t2_prefix) 1 = Some t2_o1 /\
+   nth_error (rb_ecdh t2_base) 1 = Some t2_e1 /\ sender_ecdh toyHs toyHb (sn_shared t2_s1) t2_a1 t2_y1 t2_e1 /\
+   (t2_a1 < 2 ^ 64)%N /\
+   exists c1, nth_error (rb_out_pk t2_base) 1 = Some c1 /\ @decompress toy2_ops c1 = Some t2_C1).
+Proof. exact t2_hypotheses. Qed.
+
+Check C08_sender_shared_scalar_partial : forall (E : EdOps) (LW : EdLaws E) (Hs : hs_fun) (Hb : bytes -> bytes) v Sp maj min r i, valid Sp -> (i < 2 ^ 64)%N ->
+  let dst := wallet_address Hs v Sp maj min in
+  let snt := send Hs Hb r dst i in
+  shared_scalar Hs v (compress Sp) (compress (sn_key snt)) i = Ok (sn_shared snt).
+Check C08_sender_amount_recovered_partial : forall (E : EdOps) (LW : EdLaws E) (Hs : hs_fun) (Hb : bytes -> bytes) v Sp a b c d p l fields main k o maj min r bs e c0 Hp am y,
+  valid Sp ->
+  prefix_check_outputs Hs Hb v (compress Sp) a b c d p (Some bs) = SOk l ->
+  raw_try_parse valid_pk_b (extra p) = Ok fields -> tx_pubkey fields = Some main ->
+  nth_error (outputs p) k = Some o -> (N.of_nat k < 2 ^ 64)%N ->
+  in_ranges a b c d (maj, min) ->
+  let dst := wallet_address Hs v Sp maj min in
+  let snt := send Hs Hb r dst (N.of_nat k) in
+  let K := compress (sn_key snt) in
+  let sh := sn_shared snt in
+  (o_target o = TKey (compress (sn_onetime snt)) \/ o_target o = TTagged (compress (sn_onetime snt)) (b2n (sn_tag snt))) ->
+  (K = main \/
+   (nth_error (adds_of fields) k = Some K /\
+    forall idx2, in_ranges a b c d idx2 -> ~ matches Hs Hb v (compress Sp) (N.of_nat k) o main idx2)) ->
+  rb_type bs <> RNull ->
+  nth_error (rb_ecdh bs) k = Some e -> nth_error (rb_out_pk bs) k = Some c0 ->
+  (am < 2 ^ 64)%N -> decompress Ed25519.H_bytes = Some Hp ->
+  ((e = EBulletproof (sender_compact Hb am sh) /\ y = gen_commitment_mask Hs sh) \/
+   (e = EStandard (fst (sender_legacy Hs am y sh)) (snd (sender_legacy Hs am y sh)) /\ 0 <= y < ell /\ (forall m, 0 <= Hs m < ell))) ->
+  decompress c0 = Some (pedersen Hp y am) ->
+  exists w, In w l /\ ow_pos w = N.of_nat k /\ ow_out w = o /\ ow_key w = K /\
+    ow_opening w = Some (am, y, pedersen Hp y am) /\
+    owned_amount w = Some am /\ owned_blinding_factor w = Some y /\ owned_commitment w = Some (pedersen Hp y am) /\
+    get_spend_public_key Hs v (compress Sp) (ow_index w) = Ok (compress (a_spend dst)) /\
+    ((forall idx2, in_ranges a b c d idx2 -> get_spend_public_key Hs v (compress Sp) idx2 = Ok (compress (a_spend dst)) ->
+        idx2 = (maj, min)) -> ow_index w = (maj, min)).
+Check C08_sender_step_ok_partial : forall (E : EdOps) (LW : EdLaws E) (Hs : hs_fun) (Hb : bytes -> bytes) v Sp a b c d t maj min r i o main add am y bs e c0 Hp,
+  valid Sp -> checker_new Hs v (compress Sp) a b c d = Ok t -> in_ranges a b c d (maj, min) -> (i < 2 ^ 64)%N ->
+  let dst := wallet_address Hs v Sp maj min in
+  let snt := send Hs Hb r dst i in
+  let K := compress (sn_key snt) in
+  let sh := sn_shared snt in
+  (o_target o = TKey (compress (sn_onetime snt)) \/ o_target o = TTagged (compress (sn_onetime snt)) (b2n (sn_tag snt))) ->
+  (K = main \/ (add = Some K /\ check_key Hs Hb t v (compress Sp) i o main = Ok None)) ->
+  rb_type bs <> RNull ->
+  (am < 2 ^ 64)%N -> decompress Ed25519.H_bytes = Some Hp ->
+  ((e = EBulletproof (sender_compact Hb am sh) /\ y = gen_commitment_mask Hs sh) \/
+   (e = EStandard (fst (sender_legacy Hs am y sh)) (snd (sender_legacy Hs am y sh)) /\ 0 <= y < ell /\ (forall m, 0 <= Hs m < ell))) ->
+  decompress c0 = Some (pedersen Hp y am) ->
+  exists idx',
+    check_output Hs Hb t v (compress Sp) i o main add = Ok (Some (idx', K)) /\
+    get_spend_public_key Hs v (compress Sp) idx' = Ok (compress (a_spend dst)) /\
+    opening_step Hs Hb (Some bs) (Some e) (Some c0) v (compress Sp) i K = SOk (Some (am, y, pedersen Hp y am)).
+
+Print Assumptions C08_sender_shared_scalar_partial.
+Print Assumptions C08_sender_amount_recovered_partial.
+Print Assumptions C08_sender_step_ok_partial.
